@@ -11,6 +11,7 @@ def run(tier, rep):
     pc.check(rep, "C03", tier, ["children", "attrs", "text"], {"schema", "unsound"}, "C03",
              sessions=400 if tier == "quick" else 6000, nontrivial=pc.has_demotion_or_multi, rule=RULE,
              invariants=["TypeOK", "Exact", "StackWF", "ResultWF"])
+    pc.mechanism_trace(rep, "C03", 150 if tier == "quick" else 3000)
     rep.assumptions += ["the schema of the returned tree is read through the verif_view hook (attributes and positions are "
                         "private); its rendering is bound separately by the renderer checks (C04/C10/C16)",
                         "documents with several top-level elements or a different root name in a later document are outside "
